@@ -244,7 +244,7 @@ def main():
                           "actions")
   C02.tune_explore()
   SINK.open()
-  explore.explore(rep, "checks.C31", "C31Monitor", n_quick=144, budget_quick_s=45)
+  explore.explore(rep, "checks.C31", "C31Monitor", n_quick=144, budget_quick_s=30)
   rep.coverage["stored_actions_classified"] = SINK.total()
   return rep.finish()
 
